@@ -12,7 +12,7 @@ PoolB == {Nil, Public, E(1, "iri"), E(1, "https"), E(1, "actor"), E(2, "iri"), E
 PoolC == {Nil, E(1, "iri"), E(1, "slash"), E(2, "object"), E(3, "iri")}                \* MaxTotal = 4
 
 GHeads == [class : {"plain", "activity"}, actor : {Nil}, object : {Nil}]
-          \cup [class : {"block"}, actor : {Nil}, object : {Nil, E(1, "actor"), E(1, "iri"), E(2, "object")}]
+          \cup [class : {"block"}, actor : {Nil}, object : {Nil, E(1, "actor"), E(1, "iri"), E(2, "object"), E(1, "list1")}]   \* list1: the blocked one as a list of one
           \cup [class : {"intransitive"}, actor : {Nil, E(1, "actor"), E(1, "https"), E(2, "iri")}, object : {Nil}]
           \cup [class : {"question"}, actor : {Nil, E(2, "actor")}, object : {Nil}]
 
